@@ -156,6 +156,15 @@ def match_finding(findings: list[dict], prop: str, key: str) -> dict | None:
 # evidence
 
 
+def printable(s: str) -> str:
+    """Lone surrogates (legal in str, not encodable) become \\udcXX escapes so that files and stdout accept the text."""
+    try:
+        s.encode("utf-8")
+        return s
+    except UnicodeEncodeError:
+        return s.encode("utf-8", "backslashreplace").decode("utf-8")
+
+
 def jsonable(o: Any) -> Any:
     if isinstance(o, (str, int, float, bool)) or o is None:
         return o
@@ -183,7 +192,7 @@ def write_evidence(ctx: Ctx, report: Report, wall: float, nviol: int) -> str:
     os.makedirs(os.path.dirname(path), exist_ok=True)
     tmp = path + ".tmp"
     with open(tmp, "w", encoding="utf-8") as f:
-        json.dump(ev, f, indent=1, ensure_ascii=False)
+        f.write(printable(json.dumps(ev, indent=1, ensure_ascii=False)))
         f.write("\n")
     os.replace(tmp, path)
     validate_evidence(path, ev)
@@ -231,7 +240,7 @@ def write_replay(prop: str, v: Violation, tier: str) -> str:
             },
             f,
             indent=1,
-            ensure_ascii=False,
+            ensure_ascii=True,  # lone surrogates in a witness survive as \udcXX escapes
         )
         f.write("\n")
     return path
